@@ -1,0 +1,17 @@
+//go:build verif
+
+package name
+
+// VerifLanguages returns copies of the platform language id tables
+// (language id -> BCP 47 tag) for the Macintosh and Windows platforms.
+func VerifLanguages() (mac, windows map[uint16]string) {
+	mac = make(map[uint16]string, len(appleBCP))
+	for k, v := range appleBCP {
+		mac[k] = v
+	}
+	windows = make(map[uint16]string, len(msBCP))
+	for k, v := range msBCP {
+		windows[k] = v
+	}
+	return mac, windows
+}
